@@ -10,7 +10,7 @@ for m in sorted(glob.glob("/verif/seeded/*/meta.json")):
         continue
     d = json.load(open(m))
     checks = d.get("caught_by", [])
-    p = subprocess.run(["/verif/tools/try_seed_scratch.sh", f"/verif/seeded/{sid}/patch.diff", *checks], capture_output=True, text=True)
+    p = subprocess.run(["/verif/tools/try_seed_scratch.sh", f"/verif/seeded/{sid}/patch.diff", *checks], capture_output=True, text=True, env={**os.environ, "VERIF_FAIL_FAST": "1"})
     res = {}
     for line in p.stdout.splitlines():
         if line.startswith("== "):
